@@ -56,7 +56,7 @@ class C10(Spec):
             "(thorough). REMOTE chains on the loopback TLS simulator: collections whose first/next are URLs (or embedded pages, mixed), "
             "on one or several hosts, linear, CYCLIC (next points back at an earlier page: an endless sequence), endlessly EMPTY "
             "(cycles of empty pages), BROKEN (404, a document that is not a collection, a dead host, an unparseable reference), with "
-            "junk elements; pub.New(url) then Harvest through the continuation for <= 6 requests: deliveries and continuation flags "
+            "junk elements, continuations given as URLs, relative references, embedded pages and STUBS ({id}, {id,type}: fetched by id; three keys: the page itself); pub.New(url) then Harvest through the continuation for <= 6 requests: deliveries and continuation flags "
             "equal Paging.remote_requests = Collection.harvest over the page graph the simulator serves. "
             "non-trivial = at least 2 pages and 2 requests and one item delivered.")
     assumptions = ["load (NewCollection = fetch + parse) is an oracle in the theorems: any page graph, cycles included; in the remote runs it "
